@@ -13,6 +13,7 @@ package mutil
 //@ func (*basicWriter).WriteHeader(b, code)
 //@   props C18
 //@   arith int
+//@   flag replay mutil_view
 //@   modifies b.code, b.wroteHeader
 //@   requires b != nil && b.ResponseWriter != nil
 //@   ensures old(b.wroteHeader) ==> b.code == old(b.code) && b.wroteHeader && ncalls(http.ResponseWriter.WriteHeader) == old(ncalls(http.ResponseWriter.WriteHeader))
